@@ -32,6 +32,16 @@ Grammar (anything else raises `Untranslatable` = "tie broken", never silently sk
     dict/list building with static keys, `torch.stack(list, dim=-1)` (→ list),
     `for k, v in D.items(): if k in T: T[k] = T[k] + v else: T[k] = v` (pointwise merge with an
     environment), calls to other translated functions.
+  * guards are ALSO emitted faithfully: every function with guards (and every function calling one) gets a
+    second definition `<fn>_guarded` with a presence predicate `present : String → Bool`
+    (`if any(k in coefs …)` → `if List.any [keys] present`); that guarded = unguarded whenever absent keys
+    read 0 is a Lean obligation (`guards_transparent` in Props/C12.lean), not a check of the translator
+  * a loop over a *dynamic* label list that only appends to one list (`for label in cartesian_basis: …
+    out.append(e)`): the body is partially evaluated for every label of the literal label table with the
+    list kept symbolic; emitted as `<fn>_step … (out : List R) (label : String) : Option (List R)` and
+    `<fn>_list … (labels : List String) := List.foldlM step [] labels` (labels outside the table → none)
+  * 2×2 matrix code of `_torch_polar`: `torch.linalg.svd(m)` (an abstract parameter `svd`), `A @ B`, `.T`,
+    `.conj()` (real: identity), `S.diag()`, `.to(dtype=…)` (identity), `M * S` (column scaling = M·diag S)
 Output is deterministic (no timestamps).
 """
 import ast
@@ -77,6 +87,31 @@ class OpenDict:
         self.known = dict(known or {})
         self.rest = rest
         self.origin = None   # Lean code of the call that produced it, while unmodified
+
+
+class DynM:
+    """a Lean expression of type M2 R"""
+    def __init__(self, code):
+        self.code = code
+
+
+class DynV:
+    """a Lean expression of type R × R (the two singular values)"""
+    def __init__(self, code):
+        self.code = code
+
+
+class DynList:
+    """a list of R kept symbolic (mutable: .append rewrites .code)"""
+    def __init__(self, code, opt=False):
+        self.code = code
+        self.opt = opt      # True: the expression has type Option (List R)
+
+
+class DynLabels:
+    """a dynamic list of label strings drawn from a literal universe"""
+    def __init__(self, code, universe):
+        self.code, self.universe = code, list(universe)
 
 
 class Presence:
@@ -157,6 +192,9 @@ class Interp:
         self.reads = None        # set of (env code, key) read while inside a guard body
         self.term_count = {}
         self.guards = []
+        self.guarded = False     # second pass: emit `<fn>_guarded` with faithful guards
+        self.has_guarded = {}    # function name -> True if a `_guarded` variant exists
+        self.used_guarded = False
 
     # -- expressions ---------------------------------------------------------------------
     def ev(self, node, sc):
@@ -217,6 +255,10 @@ class Interp:
             return Dyn("Num.pi")
         if isinstance(base, tuple) and base and base[0] == "builtin":
             return ("builtin", base[1] + "." + node.attr)
+        if isinstance(base, DynM) and node.attr == "T":
+            return DynM(f"(QuantemModel.Aberration.M2.transpose {base.code})")
+        if isinstance(base, (DynM, DynV)) and node.attr == "dtype":
+            return ("dtype",)
         return ("method", base, node.attr)
 
     def ev_UnaryOp(self, node, sc):
@@ -254,6 +296,12 @@ class Interp:
             if isinstance(b, int) and not isinstance(b, bool) and b >= 0:
                 return Dyn(f"(npow {to_dyn(a, node).code} {b})")
             bad(node, "`**` with a non-literal or negative exponent")
+        if isinstance(a, DynM) or isinstance(b, DynM) or isinstance(a, DynV) or isinstance(b, DynV):
+            if isinstance(op, ast.MatMult) and isinstance(a, DynM) and isinstance(b, DynM):
+                return DynM(f"(QuantemModel.Aberration.M2.mul {a.code} {b.code})")
+            if isinstance(op, ast.Mult) and isinstance(a, DynM) and isinstance(b, DynV):
+                return DynM(f"(QuantemModel.Aberration.M2.mul {a.code} (QuantemModel.Aberration.M2.diag {b.code}))")   # (2,2)*(2,) scales the columns
+            bad(node, "matrix operator")
         sym = {ast.Add: "+", ast.Sub: "-", ast.Mult: "*", ast.Div: "/"}.get(type(op))
         if sym is None:
             bad(node, "binary operator")
@@ -365,6 +413,13 @@ class Interp:
             return Dyn(f"({un[name]} {to_dyn(args[0], node).code})")
         if name in ("torch.atan2", "torch.arctan2", "math.atan2") and len(args) == 2 and not kwargs:
             return Dyn(f"(Num.atan2 {to_dyn(args[0], node).code} {to_dyn(args[1], node).code})")
+        if name == "torch.linalg.svd" and len(args) == 1 and isinstance(args[0], DynM) and not kwargs:
+            if "svd" not in sc or not isinstance(sc["svd"], tuple) or sc["svd"][0] != "svdparam":
+                bad(node, "svd outside a function translated with an abstract svd")
+            c = f"(svd {args[0].code})"
+            return (DynM(f"{c}.1"), DynV(f"{c}.2.1"), DynM(f"{c}.2.2"))
+        if name == "torch.stack" and len(args) == 1 and kwargs.get("dim") == -1 and isinstance(args[0], DynList):
+            return args[0]
         if name == "torch.zeros_like" and len(args) == 1:
             return Dyn("Num.zero")
         if name == "torch.tensor" and len(args) == 1 and set(kwargs) <= {"device", "dtype"}:
@@ -406,6 +461,15 @@ class Interp:
     def call_method(self, node, base, attr, args, kwargs):
         if isinstance(base, Dyn) and attr == "square" and not args and not kwargs:
             return Dyn(f"({base.code} * {base.code})")
+        if isinstance(base, (DynM, DynV)) and attr == "conj" and not args and not kwargs:
+            return base                      # real matrices
+        if isinstance(base, (DynM, DynV)) and attr == "to" and not args and set(kwargs) <= {"dtype"}:
+            return base
+        if isinstance(base, DynV) and attr == "diag" and not args and not kwargs:
+            return DynM(f"(QuantemModel.Aberration.M2.diag {base.code})")
+        if isinstance(base, DynList) and attr == "append" and len(args) == 1 and not base.opt:
+            base.code = f"({base.code} ++ [{to_dyn(args[0], node).code}])"
+            return None
         if isinstance(base, Env) and attr == "get" and len(args) in (1, 2) and not kwargs:
             if not isinstance(args[0], str):
                 bad(node, ".get with a non-static key")
@@ -464,7 +528,12 @@ class Interp:
                 parts.append(to_dyn(v, node).code)
             else:
                 parts.append(self.env_code(v, node))
-        call = f"({f.name} {' '.join(parts)})" if parts else f.name
+        fname = f.name
+        if self.guarded and self.has_guarded.get(f.name):
+            fname = f.name + "_guarded"
+            parts.append("present")
+            self.used_guarded = True
+        call = f"({fname} {' '.join(parts)})" if parts else fname
         if f.ret == "R":
             return Dyn(call)
         if f.ret[0] == "tuple":
@@ -563,6 +632,8 @@ class Interp:
         it = self.ev(s.iter, sc)
         if isinstance(it, tuple) and it and it[0] == "items" and isinstance(it[1], Env):
             return self.merge_loop(s, it[1], sc)
+        if isinstance(it, DynLabels):
+            return self.label_loop(s, it, sc)
         if not isinstance(it, (tuple, list)):
             bad(s, "loop over a non-static iterable")
         for x in list(it):
@@ -571,6 +642,56 @@ class Interp:
                 self.exec_block(s.body, sc)
             except _Continue:
                 continue
+
+    def label_loop(self, s, labels, sc):
+        """`for label in <dynamic label list>:` whose only effect is appending to ONE list.
+        The body is evaluated for every label of the literal universe with the list symbolic."""
+        if not isinstance(s.target, ast.Name):
+            bad(s, "label loop target")
+        fname, params = self.cur
+        lists = [n for n, v in sc.items() if isinstance(v, list) and all(isinstance(x, Dyn) for x in v) or isinstance(v, DynList)]
+        if len(lists) != 1:
+            bad(s, f"a loop over a dynamic label list must build exactly one list (found {lists})")
+        var = lists[0]
+        init = sc[var]
+        if isinstance(init, list):
+            init = DynList("([] : List R)" if not init else "[" + ", ".join(x.code for x in init) + "]")
+        if init.opt:
+            bad(s, "second dynamic loop over the same list")
+
+        def snapshot(scope):
+            out = {}
+            for n, v in scope.items():
+                if n == var:
+                    continue
+                out[n] = v.code if hasattr(v, "code") else (id(v) if isinstance(v, (PyFunc, OpenDict)) else repr(v))
+            return out
+        before = snapshot(sc)
+        arms = []
+        for lab in labels.universe:
+            sc2 = dict(sc)
+            cur = DynList(var)
+            sc2[var] = cur
+            sc2[s.target.id] = lab
+            try:
+                self.exec_block(s.body, sc2)
+            except _Continue:
+                pass
+            if sc2[var] is not cur:
+                bad(s, "the list is rebound inside the loop")
+            after = snapshot({n: v for n, v in sc2.items() if n in sc})
+            if after != before:
+                ch = sorted(n for n in before if after.get(n) != before[n])
+                bad(s, f"loop-carried variables {ch} in a loop over a dynamic label list")
+            arms.append((lab, cur.code))
+        step = f"{fname}_step"
+        base_params = [(p, k) for p, k in params if k != "labels"]
+        ps = " ".join(p for p, _ in base_params)
+        body = "\n  ".join(f"{'if' if i == 0 else 'else if'} {s.target.id} = {lean_str(lab)} then some {code}" for i, (lab, code) in enumerate(arms))
+        body += "\n  else none"
+        sig = self.render_def(step, base_params, "Option (List R)", "@@").replace(f" : Option (List R) :=\n  @@\n", "")
+        self.defs.append(f"{sig} ({var} : List R) ({s.target.id} : String) : Option (List R) :=\n  {body}\n")
+        sc[var] = DynList(f"(List.foldlM (fun {var} {s.target.id} => {step} {ps} {var} {s.target.id}) {init.code} {labels.code})", opt=True)
 
     def merge_loop(self, s, env, sc):
         """for k, v in D.items(): if k in T: T[k] = T[k] + v else: T[k] = v"""
@@ -611,6 +732,7 @@ class Interp:
         fname, params = self.cur
         idx = len(self.guards) + 1
         self.guards.append(list(g.keys))
+        base_params = [(p, k) for p, k in params if k != "pres"]
         for st in s.body:
             ok = (isinstance(st, ast.Assign) and len(st.targets) == 1 and isinstance(st.targets[0], ast.Name)
                   and isinstance(st.value, ast.BinOp) and isinstance(st.value.op, (ast.Add, ast.Sub))
@@ -619,58 +741,82 @@ class Interp:
                 bad(st, "guarded statement is not an accumulation `x = x ± E`")
             x = st.targets[0].id
             old = to_dyn(sc[x], st)
-            self.reads = set()
-            e = to_dyn(self.ev(st.value.right, sc), st)
-            reads, self.reads = self.reads, None
-            extra = sorted(k for _, k in reads if k not in g.keys)
-            if extra:
-                bad(st, f"guard {g.keys} does not cover keys {extra} read in its body (skipping would not be sound)")
             tname = f"{fname}_{x}_term{idx}"
-            self.defs.append(self.render_def(tname, params, "R", e.code))
-            call = f"({tname} {' '.join(p for p, _ in params)})"
+            call = f"({tname} {' '.join(p for p, _ in base_params)})"
             sym = "+" if isinstance(st.value.op, ast.Add) else "-"
-            sc[x] = Dyn(f"({old.code} {sym} {call})")
+            if not self.guarded:
+                e = to_dyn(self.ev(st.value.right, sc), st)
+                self.defs.append(self.render_def(tname, params, "R", e.code))
+                sc[x] = Dyn(f"({old.code} {sym} {call})")
+            else:
+                # faithful guard: the block is skipped unless one of the guard keys is present.  That skipping
+                # loses nothing is NOT assumed here: it is the obligation `guards_transparent` in Props/C12.lean.
+                keys = "[" + ", ".join(lean_str(k) for k in g.keys) + "]"
+                self.used_guarded = True
+                op = "guardAdd" if sym == "+" else "guardSub"
+                sc[x] = Dyn(f"({op} (List.any {keys} present) {old.code} {call})")
 
     # -- top level -----------------------------------------------------------------------
     def render_def(self, name, params, ret, body):
-        ps = " ".join(f"({p} : {'R' if k == 'R' else 'String → R'})" for p, k in params)
+        ty = {"R": "R", "env": "String → R", "pres": "String → Bool", "labels": "List String",
+              "M": "QuantemModel.Aberration.M2 R",
+              "svd": "QuantemModel.Aberration.M2 R → QuantemModel.Aberration.M2 R × (R × R) × QuantemModel.Aberration.M2 R"}
+        ps = " ".join(f"({p} : {ty[k]})" for p, k in params)
         return f"def {name} {ps} : {ret} :=\n  {body}\n"
 
-    def translate(self, name, kinds, bind=None):
-        """kinds: param name -> "R" | "env"; bind: param name -> static value (not a Lean parameter)"""
+    def translate(self, name, kinds, bind=None, lean_name=None, universe=None):
+        """kinds: param name -> "R" | "env" | "labels" | "M"; bind: param name -> static value (not a Lean parameter);
+        in the guarded pass a presence predicate `present` is appended to the parameters"""
         fn = self.mod.funcs.get(name)
         if fn is None:
             raise Untranslatable(f"function {name} not found in {self.mod.rel}")
+        lean_name = lean_name or name.lstrip("_")
         bind = bind or {}
         sc = {}
         params = []
         a = fn.args
         names = [x.arg for x in a.args]
         defaults = {n: d for n, d in zip(names[len(names) - len(a.defaults):], a.defaults)}
+        uses_svd = any(isinstance(n, ast.Attribute) and n.attr == "svd" for n in ast.walk(fn))
+        if uses_svd:
+            params.append(("svd", "svd"))
+            sc["svd"] = ("svdparam",)
         for n in names:
             if n in bind:
                 sc[n] = bind[n]
             elif n in kinds:
                 params.append((n, kinds[n]))
-                sc[n] = Dyn(n) if kinds[n] == "R" else Env(n)
+                sc[n] = {"R": Dyn, "env": Env, "M": DynM}.get(kinds[n], None)
+                sc[n] = sc[n](n) if sc[n] else DynLabels(n, universe)
             elif n in defaults:
                 sc[n] = self.ev(defaults[n], {})
             else:
                 raise Untranslatable(f"{name}: parameter {n} has no role")
-        self.cur = (name, params)
+        if self.guarded:
+            if sum(1 for _, k in params if k == "env") != 1:
+                raise Untranslatable(f"{name}: guarded translation needs exactly one coefficient dict")
+            params.append(("present", "pres"))
+            lean_name = lean_name + "_guarded"
+        self.cur = (lean_name if not self.guarded else lean_name[:-len("_guarded")], params)
         self.guards = []
+        self.used_guarded = False
         try:
             self.exec_block(fn.body, sc)
             raise Untranslatable(f"{name}: no return reached")
         except _Return as r:
             v = r.v
-        if self.guards:
+        if self.guarded and not self.used_guarded:
+            return None            # nothing guarded in or below this function: no second definition
+        if self.guards and not self.guarded:
             gl = ", ".join("[" + ", ".join(lean_str(k) for k in g) + "]" for g in self.guards)
-            self.defs.append(f"def {name}_guards : List (List String) :=\n  [{gl}]\n")
+            self.defs.append(f"def {lean_name}_guards : List (List String) :=\n  [{gl}]\n")
         if isinstance(v, Dyn):
             ret, lean_ret, body = "R", "R", v.code
         elif isinstance(v, tuple) and len(v) == 2 and all(isinstance(x, Dyn) for x in v):
             ret, lean_ret, body = ("tuple", 2), "R × R", f"({v[0].code}, {v[1].code})"
+        elif isinstance(v, tuple) and len(v) == 2 and all(isinstance(x, DynM) for x in v):
+            ret, lean_ret = ("mtuple", 2), "QuantemModel.Aberration.M2 R × QuantemModel.Aberration.M2 R"
+            body = f"({v[0].code}, {v[1].code})"
         elif isinstance(v, OpenDict) and v.rest is None:
             ret, lean_ret = ("dict", list(v.known)), "List (String × R)"
             body = "[" + ",\n   ".join(f"({lean_str(k)}, {e.code})" for k, e in v.known.items()) + "]"
@@ -679,10 +825,15 @@ class Interp:
         elif isinstance(v, list) and all(isinstance(x, Dyn) for x in v):
             ret, lean_ret = ("list", len(v)), "List R"
             body = "[" + ",\n   ".join(e.code for e in v) + "]"
+        elif isinstance(v, DynList) and v.opt:
+            ret, lean_ret, body = ("optlist",), "Option (List R)", v.code
         else:
             raise Untranslatable(f"{name}: return value shape outside the grammar")
-        self.defs.append(self.render_def(name, params, lean_ret, body))
-        self.translated[name] = Translated(name, params, ret)
+        self.defs.append(self.render_def(lean_name, params, lean_ret, body))
+        if self.guarded:
+            self.has_guarded[name] = True
+        elif lean_name == name.lstrip("_"):
+            self.translated[name] = Translated(lean_name, params, ret)
         return ret
 
 
@@ -703,14 +854,16 @@ def pair_list(d):
 
 
 PRELUDE = '''import QuantemModel.Core.Num
+import QuantemModel.Model.AberrationBase
 /-!
 GENERATED by harness/translator/aberr2lean.py from the function bodies in
   src/quantem/diffractive_imaging/complex_probe.py, src/quantem/core/utils/validators.py,
   src/quantem/diffractive_imaging/direct_ptycho_utils.py, src/quantem/diffractive_imaging/probe_models.py
 — regenerated on every `./check C12`; do not edit by hand.
 Coefficient dicts are environments `String → R` (absent key = 0).  `if any(k in coefs …)` guards
-are emitted unguarded; each guarded increment is its own definition `…_term<i>` and the guard
-key lists are `…_guards` (side obligation `guard_sound` in Props/C12.lean).
+are emitted unguarded (each guarded increment is its own definition `…_term<i>`, the guard key lists
+are `…_guards`) AND faithfully as `…_guarded` with a presence predicate; `guards_transparent` in
+Props/C12.lean proves the two agree whenever absent keys read 0.  2×2 matrices: Model/AberrationBase.lean.
 -/
 set_option linter.unusedVariables false
 namespace QuantemModel.Generated.Aberration
@@ -727,6 +880,12 @@ def npow (x : R) : Nat → R
 def lookupD : List (String × R) → String → R
   | [], _ => Num.zero
   | (a, v) :: rest, k => if k = a then v else lookupD rest k
+
+/-- `if g: x = x + t` -/
+def guardAdd (g : Bool) (x t : R) : R := if g then x + t else x
+
+/-- `if g: x = x - t` -/
+def guardSub (g : Bool) (x t : R) : R := if g then x - t else x
 
 /-- a locally built dict on top of a rest environment, read with default 0 -/
 def envOf : List (String × R) → (String → R) → String → R
@@ -780,13 +939,31 @@ def generate():
                      bind={"cartesian_basis": labels})
     if r != ("list", len(labels)):
         raise Untranslatable("aberration_surface_cartesian_basis does not return one column per label")
+    r = it.translate("aberration_surface_cartesian_basis", {"alpha": "R", "phi": "R", "wavelength": "R", "cartesian_basis": "labels"},
+                     lean_name="aberration_surface_cartesian_basis_list", universe=labels)
+    if r != ("optlist",):
+        raise Untranslatable("aberration_surface_cartesian_basis over a dynamic label list does not return the built list")
+    # second pass: the same functions with their guards kept
+    it.guarded = True
+    for fn_name, kinds in (("aberration_surface", {"alpha": "R", "phi": "R", "wavelength": "R", "aberration_coefs": "env"}),
+                           ("aberration_surface_polar_gradients", {"alpha": "R", "phi": "R", "aberration_coefs": "env"}),
+                           ("aberration_surface_cartesian_gradients", {"alpha": "R", "phi": "R", "aberration_coefs": "env"})):
+        it.translate(fn_name, kinds)
+    it.guarded = False
     r1 = it.translate("polar_to_cartesian_aberrations", {"polar": "env"})
     r2 = it.translate("cartesian_to_polar_aberrations", {"cart": "env"})
     it.translate("merge_aberration_coefficients", {"init_coefs_polar": "env", "delta_coefs_cartesian": "env"})
     out.extend(it.defs)
+    # ---- direct_ptycho_utils._torch_polar (2×2, abstract svd)
+    it2 = Interp(dpu)
+    r = it2.translate("_torch_polar", {"m": "M"})
+    if r != ("mtuple", 2):
+        raise Untranslatable("_torch_polar does not return a pair of matrices")
+    out.extend(it2.defs)
     out.append(f"/-- keys written by polar_to_cartesian_aberrations, in order -/\ndef POLAR_TO_CARTESIAN_KEYS : List String :=\n  {str_list(r1[1])}\n")
     out.append(f"/-- keys written by cartesian_to_polar_aberrations, in order -/\ndef CARTESIAN_TO_POLAR_KEYS : List String :=\n  {str_list(r2[1])}\n")
-    names = [d.split()[1] for d in it.defs if d.startswith("def ") and not d.split()[1].endswith("_guards")]
+    names = [d.split()[1] for d in it.defs if d.startswith("def ") and not d.split()[1].endswith("_guards")
+             and not d.split()[1].endswith("_guarded") and not d.split()[1].endswith("_step") and not d.split()[1].endswith("_list")]
     out.append("/-- unfolds every generated formula definition (used by the proofs so that they do not depend on\nhow many guarded blocks the source has) -/\n"
                "macro \"aberr_unfold\" : tactic =>\n  `(tactic| simp only [" + ", ".join(names) + "])\n")
     out.append("end QuantemModel.Generated.Aberration\n")
